@@ -331,6 +331,7 @@ def avoidsS (bad : List String) : PStmt → Bool
   | .while_ c b => avoidsE bad c && avoidsB bad b
   | .tryCatch b _ h => avoidsB bad b && avoidsB bad h
   | .break_ => true
+  | .tryFinally b f => avoidsB bad b && avoidsB bad f
 def avoidsB (bad : List String) : PBlock → Bool
   | .nil => true
   | .cons s rest => avoidsS bad s && avoidsB bad rest
@@ -425,6 +426,7 @@ theorem execStmt_congr (env : Env) (s : PStmt) (hs : isSimple s = true) (ha : av
   | while_ _ _ => simp [isSimple] at hs
   | tryCatch _ _ _ => simp [isSimple] at hs
   | break_ => simp [isSimple] at hs
+  | tryFinally _ _ => simp [isSimple] at hs
 
 theorem exec2_congr : ∀ n : Nat,
     (∀ (env : Env) (s : PStmt), avoidsS bad s = true → exec2S n M' env s = exec2S n M env s) ∧
@@ -452,6 +454,17 @@ theorem exec2_congr : ∀ n : Nat,
         rw [exec2S_while, exec2S_while, eval_congr h env c ha.1, ihB env body ha.2]
         simp only [fun env1 => ihS env1 (.while_ c body) ha']
       | break_ => rfl
+      | tryFinally body fin =>
+        simp only [avoidsS, Bool.and_eq_true] at ha
+        have e1 : ∀ (X : Meths), exec2S (n + 1) X env (.tryFinally body fin) =
+            (match exec2B n X env body with
+             | .error e => .error e
+             | .ok o =>
+               match exec2B n X o.env fin with
+               | .ok (.next env2) => .ok (o.setEnv env2)
+               | r => r) := fun _ => rfl
+        rw [e1, e1, ihB env body ha.1]
+        simp only [fun env1 => ihB env1 fin ha.2]
       | assign t e => rw [exec2S_simple _ _ _ _ rfl, exec2S_simple _ _ _ _ rfl, simple2, simple2, execStmt_congr h env _ rfl ha]
       | ret e => rw [exec2S_simple _ _ _ _ rfl, exec2S_simple _ _ _ _ rfl, simple2, simple2, execStmt_congr h env _ rfl ha]
       | retNone => rw [exec2S_simple _ _ _ _ rfl, exec2S_simple _ _ _ _ rfl, simple2, simple2, execStmt_congr h env _ rfl ha]
